@@ -151,6 +151,12 @@ Inductive op :=
                                                       crypto.EncryptAES / DecryptAES, oidc.NewSHACodeChallenge - function f on argument class a
                                                       (the signing-algorithm family that selects the digest).  A pure function: every call
                                                       works on state it allocates itself; nothing is kept between calls *)
+| ProvAns (i stor q r : nat)                        (* request number r of class q (every validation-error class and the happy path of the
+                                                      authorize, token, device-authorization, end-session, userinfo, introspection and
+                                                      revocation endpoints) served by provider / legacy server i, carrying its own
+                                                      per-request data (state, codes).  The ANSWER - status, redirect, error document,
+                                                      verification URIs - is built from the request, the configuration and values
+                                                      created for this request: errors are constructed per call, URLs parsed per call *)
 | ClientReq (i stor cl : nat) (k : ckind) (own : bool)
                                                    (* a request of CLIENT cl (one of any number of clients registered with the
                                                       storage) served by provider / legacy server i.  own = the credential it
@@ -173,7 +179,7 @@ Definition target (o : op) : nat :=
   | NewProvider i _ _ | NewLegacyServer i _ | NewRPOIDC i _ _ _ | NewRPOAuth i _ _
   | NewRS i _ _ _ | NewTE i _ _ _ | NewKeySet i _ _ => i
   | ProvReq i _ _ | RPCall i _ _ | RSIntrospect i _ | TEExchange i _ | KSVerify i _ | HandlerReq i _ _ _ => i
-  | ClientReq i _ _ _ _ => i
+  | ClientReq i _ _ _ _ | ProvAns i _ _ _ => i
   | DevGetAudience _ | ClientCall _ _ | FindKey _ | HelperCall _ _ => 0
   end.
 
@@ -238,6 +244,7 @@ Definition effects (o : op) : list eff :=
       | QDiscovery | QKeys | QUserinfo | QIntrospect => []
       | _ => [EWrite (LLocked stor) (SConst 1)]
       end
+  | ProvAns _ stor _ _ => [EWrite (LLocked stor) (SConst 1)]
   | ClientReq _ stor _ k _ =>
       if reads_only k then [] else [EWrite (LLocked stor) (SConst 1)]
   | DevGetAudience _ => []
@@ -277,7 +284,7 @@ Definition extra_reads (o : op) : list loc :=
       | QDeviceToken st => [LStor st]
       | _ => []
       end
-  | ClientReq i stor _ _ _ => LLocked stor :: inst_locs i
+  | ClientReq i stor _ _ _ | ProvAns i stor _ _ => LLocked stor :: inst_locs i
   | DevGetAudience st => [LStor st]
   | RPCall i c _ => LLocked i :: LG GEncoder :: inst_locs i ++ client_locs c
   | RSIntrospect i c | TEExchange i c => LG GEncoder :: inst_locs i ++ client_locs c
@@ -293,7 +300,7 @@ Definition apply (o : op) (h : heap) : heap := run (effects o) h.
 (* ids of the instances / storages an operation touches *)
 Definition tids (o : op) : list nat :=
   match o with
-  | ProvReq i stor _ | ClientReq i stor _ _ _ => [i; stor]
+  | ProvReq i stor _ | ClientReq i stor _ _ _ | ProvAns i stor _ _ => [i; stor]
   | DevGetAudience _ | ClientCall _ _ | FindKey _ | HelperCall _ _ => []
   | _ => [target o]
   end.
@@ -313,6 +320,7 @@ Definition obs_reads (o : op) : list loc :=
 Definition const_result (o : op) : list val :=
   match o with
   | HandlerReq _ _ _ r => [S r]
+  | ProvAns _ _ _ r => [S r]          (* the answer is the one this request gets alone, and carries no other request's data *)
   | HelperCall _ _ => [1]             (* the value computed equals the value the standard library computes for the argument *)
   | ClientReq _ _ cl k own =>        (* served AS client cl (for cl's user), or refused: never as anybody else *)
       [match k with KIntrospectOther => 0 | _ => if own then S cl else 0 end]
@@ -327,7 +335,7 @@ Definition deps (o : op) : list loc := flat_map eff_reads (effects o) ++ obs_rea
 
 (* requests served by a provider / legacy server (shared phase of a provider) *)
 Definition is_prov_request (o : op) : bool :=
-  match o with ProvReq _ _ _ | ClientReq _ _ _ _ _ => true | _ => false end.
+  match o with ProvReq _ _ _ | ClientReq _ _ _ _ _ | ProvAns _ _ _ _ => true | _ => false end.
 
 Definition run_ops (os : list op) (h : heap) : heap := fold_left (fun h o => apply o h) os h.
 
